@@ -43,12 +43,15 @@ BUDGET = {
     "thorough": {"runs": 6000, "chunk": 8, "wall": 1700, "chunk_timeout": 800, "selfcheck": 32},
 }
 _ALGOS = ["DYNAMOSA", "MOSA", "MIO", "WHOLE_SUITE", "RANDOM"]
+# the six general corpus modules plus the export-shape module (enums, __all__, custom exceptions, SystemExit,
+# Fraction/Decimal/date results, bytes, nested containers, values that flip back, dependency chains)
+_MODULES = ["tiny", "words", "shapes", "floats", "zoo", "plain", "gallery", "gallery", "gallery"]
 
 
 def gen_case(run_seed: int, tier: str) -> dict:
     st = Streams(run_seed)
     r, k, f = st.get("ops"), st.get("knobs"), st.get("faults")
-    case = gen_base_case(run_seed, r, k, algorithms=_ALGOS)
+    case = gen_base_case(run_seed, r, k, algorithms=_ALGOS, modules=_MODULES)
     kn = case["knobs"]
     kn["iterations"] = k.choice([2, 4, 6])
     kn["assertions"] = k.choice(["NONE", "SIMPLE", "SIMPLE", "MUTATION_ANALYSIS"])
